@@ -16,6 +16,14 @@ const (
 	maxInlineDepth  = 4
 )
 
+// inlining limits of the function under verification (contract: `inline <blocks> <depth>`)
+func (vc *VC) inlineLimits() (int, int) {
+	if vc.contract != nil && vc.contract.InlineBlocks > 0 {
+		return vc.contract.InlineBlocks, vc.contract.InlineDepth
+	}
+	return maxInlineBlocks, maxInlineDepth
+}
+
 func (f *Frame) call(instr ssa.Instruction, c *ssa.CallCommon, result ssa.Value) bool {
 	vc := f.vc
 	var res Val
@@ -360,7 +368,8 @@ func (f *Frame) callFunction(fn *ssa.Function, args []Val, bind []Val, c *ssa.Ca
 			onStack = true
 		}
 	}
-	if !onStack && vc.depth < maxInlineDepth && len(fn.Blocks) <= maxInlineBlocks && len(fn.FreeVars) == len(bind) {
+	mb, md := vc.inlineLimits()
+	if !onStack && vc.depth < md && len(fn.Blocks) <= mb && len(fn.FreeVars) == len(bind) {
 		return f.inline(fn, args, bind)
 	}
 	// havoc
